@@ -50,7 +50,7 @@ Definition qeff (t : nat) (s s' : shared) (w4t : bool) (l l' : nat) : Prop :=
 
 Ltac qeff_solve :=
   cbn; rewrite ?app_length; cbn;
-  first [ left; reflexivity
+  first [ left; (reflexivity || assumption)
         | right; left; reflexivity
         | right; right; left; repeat split; reflexivity
         | right; right; right; right; split; [reflexivity | lia]
@@ -64,4 +64,227 @@ Proof.
     repeat match goal with H : mem _ _ = true |- _ => apply mem_In in H end;
     try qeff_solve.
   all: match goal with H : ws CJ ?s = [] |- _ => cbn [ws] in H; right; left; cbn; exact H end.
+Qed.
+
+Lemma qeff_lift t s s' a oa ts ts' :
+  qeff t s s' false (aenq1 a) (oaenq1 oa) -> w4 ts = false -> lt ts = aenq1 a -> lt ts' = oaenq1 oa ->
+  qeff t s s' (w4 ts) (lt ts) (lt ts').
+Proof.
+  unfold qeff. intros [H|[H|[(H & _)|[H|H]]]] W -> ->; try discriminate H; auto.
+Qed.
+
+Section LocalQ.
+  Variables (cfg : config) (fx sp : bool) (fin : nat -> bool) (t : nat).
+
+  Ltac api_ctx H :=
+    match type of H with
+    | context [api_step ?a ?b ?c ?d ?e ?f] => destruct (api_step a b c d e f) as [[? [?|]]|] eqn:Hapi; inversion H; subst; clear H
+    end.
+
+  Lemma tstep_qeff s ts e s' ts' spw :
+    tstep cfg fx sp fin t s ts e = Some (s', ts', spw) -> qeff t s s' (w4 ts) (lt ts) (lt ts').
+  Proof.
+    intros H.
+    destruct ts as [| |p|tk j|tk j|tk j a r|tk j|a r| |p|a r]; cbn [tstep] in H; try discriminate.
+    - unfold_ops H. unfold qeff. destruct p; inv_some H; beq; subst;
+        repeat match goal with H : mem _ _ = true |- _ => apply mem_In in H end;
+        repeat match goal with |- context [if ?b then _ else _] => destruct b eqn:? end;
+        try qeff_solve.
+    - unfold_ops H. unfold qeff. inv_some H. qeff_solve.
+    - inv_some H. unfold qeff. rewrite lt_job_next. qeff_solve.
+    - api_ctx H; apply api_qeff in Hapi; eapply qeff_lift; eauto; try reflexivity; try apply lt_job_next;
+        apply lt_api_ctx; reflexivity.
+    - inv_some H. unfold qeff. qeff_solve.
+    - api_ctx H; apply api_qeff in Hapi; eapply qeff_lift; eauto; try reflexivity; try apply lt_client_next;
+        apply lt_api_ctx; reflexivity.
+    - inv_some H. unfold qeff. qeff_solve.
+    - unfold_ops H. unfold qeff. destruct p; inv_some H; beq; subst;
+        rewrite ?lt_main_ctor, ?lt_main_spawnc, ?lt_main_joinc, ?lt_main_joinw; try qeff_solve.
+    - api_ctx H; apply api_qeff in Hapi; eapply qeff_lift; eauto; try reflexivity; try apply lt_main_ops;
+        apply lt_api_ctx; reflexivity.
+  Qed.
+End LocalQ.
+
+(** * Pigeonhole between a duplicate-free list of thread ids and the number of threads with a property *)
+Lemma idx_length_gen (P : tstate -> bool) : forall l k,
+  length (filter (fun u => P (nth (u - k) l TNone)) (seq k (length l))) = length (filter P l).
+Proof.
+  induction l as [|x l IH]; intros k; [reflexivity|].
+  cbn [length seq filter]. replace (P (nth (k - k) (x :: l) TNone)) with (P x) by (rewrite Nat.sub_diag; reflexivity).
+  assert (E : filter (fun u => P (nth (u - k) (x :: l) TNone)) (seq (S k) (length l)) =
+              filter (fun u => P (nth (u - S k) l TNone)) (seq (S k) (length l))).
+  { apply filter_ext_in. intros u Hu. apply in_seq in Hu. replace (u - k) with (S (u - S k)) by lia. reflexivity. }
+  destruct (P x); cbn [length]; rewrite E, IH; reflexivity.
+Qed.
+
+Definition idxs (P : tstate -> bool) (l : list tstate) : list nat := filter (fun u => P (get l u)) (seq 0 (length l)).
+
+Lemma idxs_length P l : length (idxs P l) = cnt P l.
+Proof.
+  unfold idxs, cnt, get. rewrite <- (idx_length_gen P l 0). f_equal. apply filter_ext. intros u. now rewrite Nat.sub_0_r.
+Qed.
+Lemma idxs_in P l u : P TNone = false -> (In u (idxs P l) <-> P (get l u) = true).
+Proof.
+  intros PN. unfold idxs. rewrite filter_In, in_seq. split; [tauto|]. intros H. split; auto.
+  destruct (Nat.lt_ge_cases u (length l)) as [|Hge]; [lia|]. rewrite (get_beyond _ _ Hge), PN in H. discriminate.
+Qed.
+Lemma idxs_nodup P l : NoDup (idxs P l).
+Proof. unfold idxs. apply NoDup_filter. apply seq_NoDup. Qed.
+
+Lemma pigeon_le P l (wl : list nat) :
+  P TNone = false -> NoDup wl -> (forall u, In u wl -> P (get l u) = true) -> length wl <= cnt P l.
+Proof.
+  intros PN ND H. rewrite <- idxs_length. apply NoDup_incl_length; auto. intros u Hu. apply idxs_in; auto.
+Qed.
+Lemma pigeon_ge P l (wl : list nat) :
+  P TNone = false -> (forall u, P (get l u) = true -> In u wl) -> cnt P l <= length wl.
+Proof.
+  intros PN H. rewrite <- idxs_length. apply NoDup_incl_length; [apply idxs_nodup|]. intros u Hu. apply H. now apply idxs_in in Hu.
+Qed.
+
+Lemma rem_nodup v l : NoDup l -> NoDup (rem v l).
+Proof. apply NoDup_filter. Qed.
+Lemma rem_length v l : NoDup l -> In v l -> S (length (rem v l)) = length l.
+Proof.
+  induction l as [|x l IH]; intros ND Hin; [destruct Hin|]. inversion ND as [|? ? Hx ND']; subst.
+  unfold rem. cbn [filter]. destruct (Nat.eqb_spec v x) as [->|Hne]; cbn [negb].
+  - fold (rem x l). assert (E : rem x l = l).
+    { unfold rem. clear IH ND ND' Hin. induction l as [|y l IH]; [reflexivity|]. cbn.
+      destruct (Nat.eqb_spec x y) as [->|]; [exfalso; apply Hx; now left|]. cbn. f_equal. apply IH. intros H. apply Hx. now right. }
+    now rewrite E.
+  - cbn [length]. f_equal. fold (rem v l). apply IH; auto. destruct Hin; congruence.
+Qed.
+
+Lemma ws_eff_nodupJ sp t s s' sl sl' :
+  ws_eff sp t s s' sl sl' -> NoDup (wsJ s) -> (In t (wsJ s) -> sl <> None) -> NoDup (wsJ s').
+Proof.
+  intros [E1 E2 E3 E4 E5|c E1 E2 E3 E4 E5 E6|c E1 E2 E3 E4 E5 E6 E7|c Esp E1 E2 E3 E4 E5 E6|c v E1 E2 E3 E4 E5 E6|c E1 E2 E3 E4 E5] ND NT;
+    try (destruct c; cbn [ws other] in *); try congruence.
+  - rewrite E3. apply (Permutation_NoDup (Permutation_cons_append (wsJ s) t)). constructor; auto. intros X. now apply NT in X.
+  - rewrite E4. now apply rem_nodup.
+  - rewrite E4. now apply rem_nodup.
+  - rewrite E3. constructor.
+Qed.
+
+(** * The counting invariant *)
+Record QInv (s : state) : Prop := {
+  q_nodup : NoDup (wsJ (shr s));
+  q_cnt : wsJ (shr s) <> [] -> term (shr s) = false ->
+          length (queue (shr s)) + length (wsJ (shr s)) <= cnt loopw (thr s) + cnt enq1 (thr s)
+}.
+
+Lemma qinv_init cfg : QInv (init cfg).
+Proof. constructor; cbn; [constructor | congruence]. Qed.
+
+Lemma loopw_w5_slp ts : slp ts = Some CJ -> loopw ts = true.
+Proof. intros H. apply slp_CJ_w5 in H. now subst. Qed.
+
+Lemma qinv_tstep cfg fx sp fin t s e sh' ts' spw :
+  WInv s -> JInv s -> QInv s -> tstep cfg fx sp fin t (shr s) (get (thr s) t) e = Some (sh', ts', spw) ->
+  QInv {| shr := sh'; thr := set (thr s) t ts' |}.
+Proof.
+  intros HW HJ [Q1 Q2] H.
+  pose proof (winv_tstep _ _ _ _ _ _ _ _ _ _ HW H) as HW'.
+  pose proof (tstep_ws _ _ _ _ _ _ _ _ _ _ _ H) as WS.
+  pose proof (tstep_qeff _ _ _ _ _ _ _ _ _ _ _ H) as QE.
+  set (ts := get (thr s) t) in *.
+  assert (ND' : NoDup (wsJ sh')).
+  { eapply ws_eff_nodupJ; eauto. intros Hin. destruct (w_in _ HW CJ t Hin) as (A & _). fold ts in A. congruence. }
+  constructor; cbn [shr thr]; [exact ND'|].
+  intros NE T'.
+  assert (T : term (shr s) = false).
+  { destruct (term (shr s)) eqn:E; auto. rewrite (tstep_term _ _ _ _ _ _ _ _ _ _ _ H E) in T'. discriminate. }
+  pose proof (cnt_set loopw eq_refl t (thr s) ts') as CL. pose proof (cnt_set enq1 eq_refl t (thr s) ts') as CE. fold ts in CL, CE.
+  unfold lt in QE.
+  destruct QE as [X|[X|[(X1 & X2 & X3 & X4)|[((v & V1 & V2) & X3 & X4)|(X1 & X2)]]]].
+  - congruence.
+  - contradiction.
+  - (* the worker goes to sleep: the queue is empty; all sleepers are distinct workers in the loop *)
+    destruct (j_w4 _ HJ t X1) as (_ & QN). rewrite X3, QN. cbn [length].
+    assert (length (wsJ sh') <= cnt loopw (set (thr s) t ts')).
+    { apply pigeon_le; auto. intros u Hu. destruct (w_in _ HW' CJ u Hu) as (A & _). cbn [shr thr] in A. now apply loopw_w5_slp. }
+    lia.
+  - assert (NE0 : wsJ (shr s) <> []) by (intros E0; rewrite E0 in V1; destruct V1).
+    specialize (Q2 NE0 T). pose proof (rem_length v _ Q1 V1) as RL. rewrite V2, X3. lia.
+  - rewrite X1 in *. specialize (Q2 NE T). lia.
+Qed.
+
+Lemma qinv_spawn sh l u v : QInv {| shr := sh; thr := l |} -> get l u = TNone -> QInv {| shr := sh; thr := set l u v |}.
+Proof.
+  intros [Q1 Q2] Hu. cbn [shr thr] in *. constructor; cbn [shr thr]; auto.
+  intros NE T. specialize (Q2 NE T).
+  pose proof (cnt_set loopw eq_refl u l v) as CL. pose proof (cnt_set enq1 eq_refl u l v) as CE. rewrite Hu in CL, CE. cbn in CL, CE. lia.
+Qed.
+
+Lemma qinv_step cfg fx sp s te s' : WInv s -> JInv s -> QInv s -> lstep_gen cfg fx sp s te = Some s' -> QInv s'.
+Proof.
+  intros HW HJ HQ H. destruct te as [t e]. unfold lstep_gen in H.
+  destruct (tstep cfg fx sp (fun u => is_fin (get (thr s) u)) t (shr s) (get (thr s) t) e) as [[[sh' ts'] spw]|] eqn:Ht; [|discriminate].
+  pose proof (qinv_tstep _ _ _ _ _ _ _ _ _ _ HW HJ HQ Ht) as HQ'.
+  destruct spw as [[u tsu]|].
+  - destruct (is_none (get (thr s) u)) eqn:Hn; [|discriminate]. inversion H; subst; clear H.
+    apply qinv_spawn; auto.
+    assert (Hu : get (thr s) u = TNone) by (destruct (get (thr s) u); try discriminate; reflexivity).
+    rewrite get_set. destruct (Nat.eqb_spec t u) as [->|]; [|exact Hu].
+    exfalso. apply (tstep_not_none _ _ _ _ _ _ _ _ _ Ht). exact Hu.
+  - inversion H; subst. exact HQ'.
+Qed.
+
+Lemma qinv_reachable cfg fx sp s : reachable_gen cfg fx sp s -> QInv s.
+Proof.
+  induction 1 as [|s te s' R IH H]; [apply qinv_init|].
+  eapply qinv_step; eauto; [eapply winv_reachable | eapply jinv_reachable]; eauto.
+Qed.
+
+(** * The theorem *)
+Lemma loopw_is_worker ts : loopw ts = true -> is_worker ts = true.
+Proof. destruct ts as [| |p| | | | | | |p|]; cbn; try discriminate; auto. Qed.
+Lemma loopw_not_blocked s ts : loopw ts = true -> blockedw s ts = false.
+Proof. destruct ts as [| |p| | | | | | |p|]; cbn; try discriminate; auto. Qed.
+
+(** With a notify_one on every enqueue, a queued job and an idle worker never coexist in a quiescent state of an
+    un-terminated pool -- whatever the job bodies do, including bodies that block until another job has ended. *)
+Theorem no_queued_job_with_idle_worker cfg s u :
+  reachable cfg false s -> quiescent cfg true false s -> waits_job (get (thr s) u) = true -> term (shr s) = false ->
+  queue (shr s) = [].
+Proof.
+  intros R Q Hu T.
+  pose proof (inv_reachable _ _ _ _ R) as HI. pose proof (winv_reachable _ _ _ _ R) as HW. pose proof (qinv_reachable _ _ _ _ R) as HQ.
+  pose proof (quiescent_free _ _ _ R Q) as Ho.
+  apply waits_job_w5 in Hu.
+  assert (Es : slp (get (thr s) u) = Some CJ) by now rewrite Hu.
+  assert (Hin : In u (wsJ (shr s))).
+  { destruct (w_slp _ HW CJ u Es) as [A|A]; auto.
+    destruct (waiter_enabled cfg true false s u CJ Es A Ho) as (s' & E). rewrite (Q u _) in E. discriminate. }
+  assert (NE : wsJ (shr s) <> []) by (intros E0; rewrite E0 in Hin; destruct Hin).
+  pose proof (q_cnt _ HQ NE T) as C.
+  (* nobody is between push and notify: such a thread holds the mutex *)
+  assert (E0 : cnt enq1 (thr s) = 0).
+  { destruct (Nat.eq_dec (cnt enq1 (thr s)) 0) as [|Hne]; auto. exfalso. destruct (cnt_ex _ _ Hne) as (w & P).
+    apply enq1_hold in P. rewrite (free_not_hold _ _ HI Ho) in P. discriminate. }
+  (* every worker in the loop sleeps (otherwise it would be enabled) *)
+  assert (LE : cnt loopw (thr s) <= length (wsJ (shr s))).
+  { apply pigeon_ge; [reflexivity|]. intros w Hw.
+    destruct (in_dec Nat.eq_dec w (wsJ (shr s))) as [|Hn]; auto. exfalso.
+    destruct (worker_enabled cfg s w R Ho (loopw_is_worker _ Hw) Hn (loopw_not_blocked _ _ Hw)) as (e & s' & E).
+    unfold lstep in E. rewrite (Q w e) in E. discriminate. }
+  destruct (queue (shr s)); [reflexivity|]. cbn [length] in C. lia.
+Qed.
+
+(** No quiescent state has an idle worker (blocked in cv_jobs_.wait) while the pool is terminated or while jobs are queued. *)
+Theorem no_stranded_idle_worker cfg s u :
+  reachable cfg false s -> quiescent cfg true false s -> waits_job (get (thr s) u) = true ->
+  term (shr s) = false /\ queue (shr s) = [].
+Proof.
+  intros R Q Hu.
+  assert (T : term (shr s) = false).
+  { pose proof (inv_reachable _ _ _ _ R) as HI. pose proof (winv_reachable _ _ _ _ R) as HW. pose proof (jinv_reachable _ _ _ _ R) as HJ.
+    pose proof (quiescent_free _ _ _ R Q) as Ho. pose proof (waits_job_w5 _ Hu) as Hu'.
+    assert (Es : slp (get (thr s) u) = Some CJ) by now rewrite Hu'.
+    assert (Hin : In u (wsJ (shr s))).
+    { destruct (w_slp _ HW CJ u Es) as [A|A]; auto.
+      destruct (waiter_enabled cfg true false s u CJ Es A Ho) as (s' & E). rewrite (Q u _) in E. discriminate. }
+    destruct (j_sleep _ HJ (ex_intro _ u Hin)) as [T|(w & P)]; auto. exfalso.
+    apply pendJ_hold in P. rewrite (free_not_hold _ _ HI Ho) in P. discriminate. }
+  split; auto. eapply no_queued_job_with_idle_worker; eauto.
 Qed.
